@@ -131,9 +131,9 @@ def build(g):
             g.add('arr_%s_delslice_%d' % (which, n), E + [('i', 'int'), ('j', 'int')], bpre + epre,
                   'A.step_array(%r, 5, %d, e0, e1, e2, i, j, 1, 0, 0, 0, 0, 0, 0, 0)' % (which, n), 'MA/%s/delslice/n%d' % (which, n),
                   dict(op='del slice on %s' % which, length=n, symbolic='elements, slice bounds'), [1, 2, 3, 0, 1])
-            for st in (2, -1, 3, -2):
+            for st in (1, 2, -1, 3, -2):
                 for vn in range(0, 4):
-                    if g.tier == 'quick' and (st, vn) not in ((2, 2), (2, 3), (-1, 3), (-1, 1), (3, 1), (-2, 2), (2, 0)):
+                    if g.tier == 'quick' and (st, vn) not in ((1, 3), (1, 0), (1, 2), (2, 2), (2, 3), (-1, 3), (-1, 1), (3, 1), (-2, 2), (2, 0)):
                         continue
                     g.add('arr_%s_stepslice_%d_%d_%s' % (which, n, vn, str(st).replace('-', 'm')),
                           E + [('i', 'int'), ('j', 'int'), ('v0', 'int')],
